@@ -209,11 +209,10 @@ static void isolation(const pinst *p) {
  * The element index is a PACKED_LEN_TYPE (uint32_t by default, uint8_t/uint16_t under PACK_MAX_ELEMENTS) while the slot
  * index and the bit offset grow faster than the index when a value is wider than a slot.  Storage is a lazily
  * committed (MAP_NORESERVE) mapping large enough for element 2^32-1 of the widest instance; before each call no page
- * of it is resident except the window around the addressed slots, so after the call (a) the window must equal the
- * model and (b) mincore() must show that no other page of the whole storage was accessed. */
+ * of it is accessible except the window around the addressed slots (the rest is a PROT_NONE reservation), so (a) the
+ * window must equal the model and (b) any access to another slot of the whole storage faults and is reported. */
 #define FAR_MAP (((size_t)16 << 30) + (1 << 16))
 static uint8_t *far_map;
-static unsigned char *far_vec;
 static size_t far_index_alphabet(const pinst *p, uint64_t *out) {
     uint64_t w = (uint64_t)p->width, S = (uint64_t)p->slotbits;
     uint64_t cand[80];
@@ -247,36 +246,6 @@ static size_t far_index_alphabet(const pinst *p, uint64_t *out) {
     }
     return n;
 }
-static void far_scan(const char *api, size_t wlo, size_t whi, size_t extent) {
-    /* extent: bytes of storage an array of maxel elements of this instance can occupy (plus slack) */
-    extent = (extent + 4095) & ~(size_t)4095;
-    if (extent > FAR_MAP) {
-        extent = FAR_MAP;
-    }
-    if (mincore(far_map, extent, far_vec) != 0) {
-        vh_flag("far_storage_mapped", 0);
-        return;
-    }
-    size_t plo = wlo / 4096, phi = (whi - 1) / 4096, npages = extent / 4096;
-    for (size_t pg = 0; pg < npages; pg++) {
-        if (pg + 8 <= npages && ((uintptr_t)(far_vec + pg) & 7) == 0) {
-            uint64_t eight;
-            memcpy(&eight, far_vec + pg, 8);
-            if ((eight & 0x0101010101010101ULL) == 0) {
-                pg += 7;
-                continue;
-            }
-        }
-        if (!(far_vec[pg] & 1)) {
-            continue;
-        }
-        if (pg < plo || pg > phi) {
-            PFAIL(api, "touches_foreign_slot", "%s: element lies in storage bytes %zu..%zu but the page at storage byte %zu was accessed", cur_desc, wlo, whi - 1, pg * 4096);
-        }
-        madvise(far_map + pg * 4096, 4096, MADV_DONTNEED);
-    }
-    vh_count("page_scans", 1);
-}
 static void far_elements(const pinst *p) {
     int w = p->width, S = p->slotbits, SB = S / 8;
     uint64_t idx[96];
@@ -289,6 +258,12 @@ static void far_elements(const pinst *p) {
         uint64_t i = idx[ii], bit = i * (uint64_t)w;
         size_t firstslot = (size_t)(bit / (uint64_t)S), lastslot = (size_t)((bit + (uint64_t)w - 1) / (uint64_t)S);
         size_t wlo = (firstslot - 1) * (size_t)SB, whi = (lastslot + 2) * (size_t)SB, wl = whi - wlo;
+        /* only the pages of the window are accessible; any access to another slot of the storage faults */
+        size_t plo = wlo & ~(size_t)4095, phi = (whi + 4095) & ~(size_t)4095;
+        if (mprotect(far_map + plo, phi - plo, PROT_READ | PROT_WRITE) != 0) {
+            vh_flag("far_storage_mapped", 0);
+            continue;
+        }
         uint64_t vv[3] = {mask, 0x5555555555555555ULL & mask, 1};
         for (int bg = 0; bg < 2; bg++) {
             for (int vi = 0; vi < 3; vi++) {
@@ -321,7 +296,12 @@ static void far_elements(const pinst *p) {
                         }
                         SB_LEAVE();
                     } else {
-                        PFAIL(OPN[opi], vh_fault_name(), "%s %s", cur_desc, vh_fault_msg);
+                        uint8_t *fa = (uint8_t *)vh_fault_addr;
+                        if (fa >= far_map && fa < far_map + FAR_MAP) {
+                            PFAIL(OPN[opi], "touches_foreign_slot", "%s: element lies in storage bytes %zu..%zu but storage byte %zu was accessed", cur_desc, wlo + (size_t)SB, whi - (size_t)SB - 1, (size_t)(fa - far_map));
+                        } else {
+                            PFAIL(OPN[opi], vh_fault_name(), "%s %s", cur_desc, vh_fault_msg);
+                        }
                     }
                     vh_count("calls", 1);
                     vh_count("cases", 1);
@@ -334,9 +314,9 @@ static void far_elements(const pinst *p) {
                 }
             }
         }
-        /* one page-access scan covers the 24 calls on this element together */
-        snprintf(cur_desc, sizeof cur_desc, "%s: element %" PRIu64 " (Set/Get/SetIncr/SetHalf x 3 values x 2 backgrounds)", p->tag, i);
-        far_scan("packed.Set/Get/SetIncr/SetHalf", wlo, whi, (size_t)(((uint64_t)p->maxel * (uint64_t)w) / 8) + (1 << 16));
+        madvise(far_map + plo, phi - plo, MADV_DONTNEED);
+        mprotect(far_map + plo, phi - plo, PROT_NONE);
+        vh_count("windows", 1);
         char ck[96];
         snprintf(ck, sizeof ck, "far/w%d/slot%d/%s/index>=2^%d", w, S, p->maxel <= 255 ? "len8" : p->maxel <= 65535 ? "len16" : "len32", 63 - __builtin_clzll(i));
         vh_class(ck, "%s element %" PRIu64, p->tag, i);
@@ -352,6 +332,8 @@ static void sorted_long(const pinst *p) {
     uint64_t *ref = malloc(sizeof(uint64_t) * ((size_t)L + 4));
     uint8_t *st = far_map; /* zero pages; big enough */
     size_t bytes = ((size_t)(L + 4) * (size_t)w + 7) / 8 + 64;
+    size_t span = (bytes + 8191) & ~(size_t)4095;
+    mprotect(st, span, PROT_READ | PROT_WRITE);
     memset(st, 0, bytes);
     /* ascending values with gaps (so that absent values exist), saturating at the mask */
     for (uint32_t i = 0; i < L; i++) {
@@ -419,7 +401,8 @@ static void sorted_long(const pinst *p) {
         vh_count("calls", 1 + len);
     }
     vh_count("cases", 1);
-    madvise(st, (bytes + 8191) & ~(size_t)4095, MADV_DONTNEED);
+    madvise(st, span, MADV_DONTNEED);
+    mprotect(st, span, PROT_NONE);
     free(ref);
     char ck[64];
     snprintf(ck, sizeof ck, "sorted-long/w%d/slot%d/len%u", w, p->slotbits, L);
@@ -644,13 +627,11 @@ int main(int argc, char **argv) {
         }
     }
     /* far elements and long sorted arrays */
-    far_map = mmap(NULL, FAR_MAP, PROT_READ | PROT_WRITE, MAP_PRIVATE | MAP_ANONYMOUS | MAP_NORESERVE, -1, 0);
+    far_map = mmap(NULL, FAR_MAP, PROT_NONE, MAP_PRIVATE | MAP_ANONYMOUS | MAP_NORESERVE, -1, 0);
     if (far_map == MAP_FAILED) {
         vh_flag("far_storage_mapped", 0);
     } else {
         vh_flag("far_storage_mapped", 1);
-        madvise(far_map, FAR_MAP, MADV_NOHUGEPAGE);
-        far_vec = malloc(FAR_MAP / 4096);
         if (vh_section_begin("far")) {
             for (int k = 0; k < NPINST; k++) {
                 cur_inst = &PINST[k];
